@@ -759,6 +759,27 @@ def shards(tier):
                      nontrivial=lambda c: True, thorough_mult=10))
     out.append(Shard("lru_cache-across-loops", check_loop_switch, strategy=loop_switch_cases(tier), n=300,
                      nontrivial=lambda c: len(set(c["loops"])) >= 2, thorough_mult=10))
+    # the asynctools adapters (any_iter / await_each grid, apply, sync) while a REAL asyncio loop is running around the
+    # hand-driven one: they must not notice (no gather, no wrap_future, no tasks: the user's awaitables are awaited
+    # where they are, one after the other, and their suspensions reach whoever drives the coroutine)
+    from . import c19
+
+    def looped(fn):
+        def check_under_loop(case):
+            try:
+                return under_asyncio(lambda: fn(case))
+            except Violation as v:
+                raise Violation("C17/under-asyncio/" + v.bucket.split("/", 1)[-1], v.detail, case=v.case) from None
+        return check_under_loop
+
+    grid = c19.grid()
+    out.append(Shard("adapters-grid-under-asyncio", looped(c19.check_grid),
+                     cases=lambda: grid[::5], nontrivial=c19.grid_nontrivial, exhaustive=False))
+    out.append(Shard("apply-under-asyncio", looped(c19.check_apply),
+                     strategy=c19.apply_cases(), n=300, nontrivial=lambda c: bool(c["pos"]) and bool(c["kw"]),
+                     thorough_mult=10))
+    out.append(Shard("sync-under-asyncio", looped(c19.check_sync),
+                     strategy=c19.sync_cases(), n=300, nontrivial=lambda c: len(set(c["calls"])) >= 2, thorough_mult=10))
     out.append(Shard("contextmanager-programs", check_cm_program, cases=cm_programs,
                      nontrivial=lambda c: c["handler"] != "none", exhaustive=True))
     out.append(Shard("sync-adapters", check_adapter, cases=lambda: [{"adapter": k} for k in _adapters()],
